@@ -1,11 +1,109 @@
+//! C03: whatever is revoked, removed or replaced is withdrawn and stays on
+//! the CRL (O-CRL, a ledger of every certificate / signed object ever seen).
+
+use std::collections::BTreeMap;
+use rpki::crypto::KeyIdentifier;
+use rpki::repository::x509::{Serial, Time};
 use crate::history::Runner;
 use crate::rp::RpResult;
+
+#[derive(Clone, Debug)]
+pub struct Entry {
+    pub uri: String,
+    pub not_after: Time,
+    pub current: bool,
+    pub first_step: usize,
+    pub ended_step: usize,
+}
 
 #[derive(Default)]
 pub struct State {
     pub last_entitlement_change: usize,
+    pub ledger: BTreeMap<(KeyIdentifier, Serial), Entry>,
+    pub ended_total: u64,
+    pub crl_checks: u64,
 }
 
 pub fn instant(_r: &mut Runner) { }
 pub fn after_task(_r: &mut Runner) { }
-pub fn at_caught_up(_r: &mut Runner, _repo_inst: usize, _rpres: &RpResult) { }
+
+pub fn at_caught_up(r: &mut Runner, _repo_inst: usize, rpres: &RpResult) {
+    let now = Time::now();
+    let step = r.step;
+    // What is in the validated tree now.
+    let mut present: BTreeMap<(KeyIdentifier, Serial), (&str, Time, bool)>
+        = BTreeMap::new();
+    for obj in &rpres.seen {
+        if obj.is_manifest {
+            continue
+        }
+        present.insert(
+            (obj.issuer_key, obj.serial),
+            (obj.uri.as_str(), obj.not_after, obj.accepted)
+        );
+    }
+    // New and continuing entries.
+    for (key, (uri, not_after, _accepted)) in &present {
+        let entry = r.ext.c03.ledger.entry(*key).or_insert_with(|| Entry {
+            uri: uri.to_string(),
+            not_after: *not_after,
+            current: true,
+            first_step: step,
+            ended_step: 0,
+        });
+        entry.current = true;
+    }
+    // Entries that stopped being current.
+    let mut ended_now = Vec::new();
+    for (key, entry) in r.ext.c03.ledger.iter_mut() {
+        if entry.current && !present.contains_key(key) {
+            entry.current = false;
+            entry.ended_step = step;
+            ended_now.push(*key);
+        }
+    }
+    r.ext.c03.ended_total += ended_now.len() as u64;
+    // Everything that is not current, has not expired, and whose issuing
+    // key still publishes a CRL must be on that CRL.
+    let mut problems = Vec::new();
+    for ((issuer, serial), entry) in r.ext.c03.ledger.iter() {
+        if entry.current || entry.not_after <= now {
+            continue
+        }
+        let Some(pp) = rpres.pub_point(issuer) else { continue };
+        r.ext.c03.crl_checks += 1;
+        if !pp.crl.contains(*serial) {
+            problems.push(format!(
+                "{} (serial {serial}, issuer key {issuer}) stopped being \
+                 current at step {} but is not on the issuer's CRL {} \
+                 (CRL number {})",
+                entry.uri, entry.ended_step, pp.crl_uri, pp.crl_number
+            ));
+        }
+    }
+    // Objects that are still in the repository although revoked.
+    for obj in &rpres.seen {
+        if obj.is_manifest || obj.accepted {
+            continue
+        }
+        if let Some(pp) = rpres.pub_point(&obj.issuer_key) {
+            if pp.crl.contains(obj.serial) {
+                problems.push(format!(
+                    "{} is on its issuer's CRL but still published",
+                    obj.uri
+                ));
+            }
+        }
+    }
+    if !ended_now.is_empty() {
+        r.stat("c03.objects_ended");
+    }
+    if let Some(p) = problems.into_iter().next() {
+        let rule = if p.contains("still published") {
+            "revoked_still_published"
+        } else {
+            "not_on_crl"
+        };
+        r.violation("C03", rule, p);
+    }
+}
